@@ -218,8 +218,8 @@ def pandas_diff(rng, n=200):
     import pandas as pd
     from . import pdlite
     fails, count = [], 0
-    for _ in range(n):
-        rows, cols = rng.randint(1, 5), rng.choice((2, 4))          # dyadic values, 2/4 columns: float arithmetic exact
+    for it in range(n):
+        rows, cols = rng.randint(1, 5), rng.choice((1, 2, 2, 4))          # dyadic values, 1/2/4 columns: float arithmetic exact
         tab = [[rng.choice([0.0, 1.0, 1.0, 2.0, -1.0, 0.5]) for _ in range(cols)] for _ in range(rows)]
         asc = rng.random() < 0.5
         recs = [dict({"params": {"i": i}}, **{f"trial_{j + 1}": tab[i][j] for j in range(cols)}) for i in range(rows)]
@@ -231,10 +231,21 @@ def pandas_diff(rng, n=200):
             df["trial_std"] = df[tc].std(axis=1)
             df["rank_mean"] = df["trial_mean"].rank(ascending=asc)
             df["rank_std"] = df["trial_std"].rank(ascending=asc)
-            df["rank_mean_std"] = df[["rank_mean", "rank_std"]].apply(tuple, axis=1).rank(method="dense", ascending=asc)
+            df["rank_mean_std"] = df[["rank_mean", "rank_std"]].apply(tuple, axis=1).rank(method="dense", ascending=True)
             best = df[df["rank_mean_std"] == df["rank_mean_std"].min()]
-            out.append((list(df["rank_mean"].values), list(df["rank_std"].values), list(df["rank_mean_std"].values),
-                        best["params"].values[0], float(best["trial_mean"].values[0])))
+            key = df["rank_mean"] * (len(df) + 1) + df["trial_mean"]
+            k2 = (df["trial_mean"] - 1.0) / 2.0
+            srt = df.sort_values("trial_mean", ascending=asc)
+            rec = [[float(x) for x in df["rank_mean"].values], [float(x) for x in df["rank_mean_std"].values]
+                   if cols > 1 else None,
+                   best["params"].values[0], float(best["trial_mean"].values[0]),
+                   [float(x) for x in key.values], int(key.idxmin()), int(key.idxmax()), float(key.min()), float(key.max()),
+                   [float(x) for x in k2.to_numpy()], float(srt["trial_mean"].values[0]), df.iloc[[rows - 1]]["params"].values[0],
+                   len(df), [float(x) for x in df["trial_mean"].rank(method="min", ascending=asc).values],
+                   [math.isnan(float(x)) for x in df["rank_std"].values]]
+            if cols > 1:
+                rec.append([float(x) for x in df["rank_std"].values])
+            out.append(rec)
         count += 1
         if out[0] != out[1]:
             fails.append(("pandas", tab, asc, out[0], out[1]))
